@@ -483,7 +483,7 @@ func c12SeqOne(c *Ctx, up *world.Upstream, cs c12SeqCase) {
 	// replace the stored ID token where the case asks for an invalid one
 	if cs.IDToken != "valid" {
 		req, _ := b.Req("GET", "/").Parse()
-		sess, lerr := px.P.sessionStore.Load(req)
+		sess, lerr := verifSessionStore(px.P).Load(req)
 		if lerr != nil || sess == nil {
 			c.Error("C12 seq: cannot load session: %v", lerr)
 			return
@@ -496,7 +496,7 @@ func c12SeqOne(c *Ctx, up *world.Upstream, cs c12SeqCase) {
 		}
 		sess.IDToken = idp.MintIDToken(idp.Users["alice"], spec)
 		rec := httptest.NewRecorder()
-		if serr := px.P.sessionStore.Save(rec, req, sess); serr != nil {
+		if serr := verifSessionStore(px.P).Save(rec, req, sess); serr != nil {
 			c.Error("C12 seq: cannot save session: %v", serr)
 			return
 		}
